@@ -24,6 +24,10 @@ type ObResult struct {
 	Model   string `json:"model,omitempty"`
 	Output  string `json:"solver_output,omitempty"`
 	Layer   string `json:"layer"`
+	// Concrete: a real Go package on which the real goderive reproduces a
+	// text-level violation (set for failed parse / type-check obligations of paths
+	// that define a plugin's helper)
+	Concrete string `json:"concrete_package,omitempty"`
 }
 
 // VerifyD runs the VC generator over repository functions (Layer D).
